@@ -346,6 +346,29 @@ static void name_order_family(void)
             vf_count(CT_WIDTH_CASES, 1);
             eval_input(doc, n, label, VK_OBJ);
         }
+    /* one name a proper prefix of the other, length difference d on both sides of every power of two (a difference narrowed to 8 or 16 bits
+       orders them wrongly or calls them equal): shorter first (well-formed) and longer first (malformed) */
+    static const size_t alen[] = { 0, 1, 5, 200 };
+    for (size_t ai = 0; ai < sizeof alen / sizeof alen[0]; ai++)
+        for (int k = 1; k <= 16; k++) for (int dd = -1; dd <= 1; dd++) for (int order = 0; order < 2; order++) {
+            size_t d = ((size_t) 1 << k) + (size_t) dd;
+            if (d < 2 || (dd == -1 && k == 2) || alen[ai] + d > sizeof P) continue;
+            if (!take()) continue;
+            size_t n = 0;
+            doc[n++] = 0x40;
+            for (int m = 0; m < 2; m++) {
+                size_t l = alen[ai] + ((m == order) ? 0 : d);
+                if (l <= 127) { doc[n++] = 0x14; doc[n++] = (uint8_t) l; }
+                else if (l <= 32767) { doc[n++] = 0x15; doc[n++] = (uint8_t) l; doc[n++] = (uint8_t) (l >> 8); }
+                else { doc[n++] = 0x16; doc[n++] = (uint8_t) l; doc[n++] = (uint8_t) (l >> 8); doc[n++] = (uint8_t) (l >> 16); doc[n++] = 0; }
+                memcpy(doc + n, P, l); n += l;
+                doc[n++] = 0x44;
+            }
+            doc[n++] = 0x41;
+            snprintf(label, sizeof label, "name order: %zu-byte name and its extension by %zu bytes, %s first", alen[ai], d, order == 0 ? "shorter" : "longer");
+            vf_count(CT_WIDTH_CASES, 1);
+            eval_input(doc, n, label, VK_OBJ);
+        }
     /* wide containers */
     static const int ns[] = { 255, 256, 257, 65535, 65536, 65537 };
     static uint8_t wide[70000 * 8];
@@ -558,7 +581,7 @@ int main(int argc, char **argv)
              "sequence of <= 3 tokens, every framed sequence of <= %d tokens over the %d-token core alphabet; every valid document with <= %d value tokens over 12 "
              "leaf classes (all integer widths, empty/short/2-byte-length strings, bytes, double, booleans) and ALL mutants at deviation distance <= %d (distance 2 "
              "for documents of <= 2 values); nesting towers k in d-2..d+2 for d in {1,2,3,10,255}, 253..258 nested arrays; integer/length width family (35 values x 4 "
-             "widths x 4 roles), adjacent-name order family (16 common-prefix lengths up to 65537 x 23 suffix pairs incl. names differing only after an embedded NUL and pairs whose first and last difference inside one 8-byte word disagree), wide containers (255..65537 members); the %s corpus files; each x {object, array} x max_depth {1,2,3,10,255}",
+             "widths x 4 roles), adjacent-name order family (16 common-prefix lengths up to 65537 x 23 suffix pairs incl. names differing only after an embedded NUL and pairs whose first and last difference inside one 8-byte word disagree), prefix-pair family (a name and its extension by 2^k-1, 2^k, 2^k+1 bytes, k = 1..16, both orders), wide containers (255..65537 members); the %s corpus files; each x {object, array} x max_depth {1,2,3,10,255}",
              L_FRAMED, VF_NTOK_HOSTILE, L_CORE, VF_NTOK_CORE, N_DOC, MUT_D, "220+1571");
     static const char *const assumptions[] = {
         "the reference recogniser (lib/vf_ref.h) is a correct reading of BINSON-SPEC-1 / binson_defines.h; it shares no code with the library and is cross-checked against the generator's trees in every other check",
